@@ -295,7 +295,7 @@ def _gen_gir(rng, k):
     return rows
 
 
-VQ_KINDS = ["len", "iterate", "getitem", "contains_stmt_id", "all_stmt_ids", "block_stmt_ids", "stmt_by_id", "stmt_by_pos",
+VQ_KINDS = ["len", "iterate", "getitem", "getslice", "contains_stmt_id", "all_stmt_ids", "block_stmt_ids", "stmt_by_id", "stmt_by_pos",
             "query_operation", "query_field", "boundary"]
 
 
@@ -313,6 +313,9 @@ def _gen_viewer_op(rng, k):
     q = {"op": "vq", "kind": kind, "v": rng.randrange(8)}
     if kind == "getitem":
         q["i"] = rng.randint(-6, 6)
+    elif kind == "getslice":
+        q["sl"] = [rng.choice([None, None, 0, 1, 2, -1, -3, 5, -100]), rng.choice([None, None, 0, 1, 3, -1, -2, 100, -100]),
+                   rng.choice([None, None, 1, 2, -1, -1, -2])]
     elif kind in ("contains_stmt_id", "stmt_by_id", "block_stmt_ids"):
         q["sid"] = rng.randrange(40)
     elif kind == "stmt_by_pos":
@@ -335,6 +338,20 @@ def generate(rng, k):
     weights = ["m"] * k["w_mut"] + ["q"] * k["w_query"] + ["c"] * k["w_cons"] + ["v"] * k.get("w_viewer", 0)
     for _ in range(k["n_ops"] - 1):
         w = rng.choice(weights)
+        if w in ("m", "c") and rng.random() < 0.04:
+            # two tables derived from one another: make the source clean, derive, change one of them, ask the changed one an
+            # indexed question (no row access before it), then ask the OTHER one the same kind of question
+            src_h = rng.randrange(8)
+            col = rng.choice(["name", "operation", "stmt_id", "v"])
+            val = rng.choice(INT_VALS) if col_kind(col) == "int" else rng.choice(STR_VALS.get(col, ["a", "b"]))
+            ops.append({"op": "q", "kind": rng.choice(["iterate", "access", "get_rows"]), "h": src_h, "i": 0})
+            ops.append({"op": rng.choice(["clone", "clone", "copy_of", "from_df"]), "h": src_h, "is_copy": True})
+            tgt = rng.choice([src_h, -1])
+            ops.append({"op": "modify_element", "h": tgt, "i": rng.randrange(16), "col": col, "v": _gen_cell(rng, k, col)})
+            ops.append({"op": "q", "kind": "qidx", "h": tgt, "col": col, "v": val})
+            ops.append({"op": "q", "kind": "qidx", "h": -1 if tgt == src_h else src_h, "col": col,
+                        "v": rng.choice(INT_VALS) if col_kind(col) == "int" else rng.choice(STR_VALS.get(col, ["a", "b"]))})
+            continue
         if w == "v":
             if rng.random() < 0.08:
                 # the production pattern with a nested view: child = read_block(last); empty viewer; empty.append_other(child);
@@ -435,13 +452,25 @@ def execute(trace):
     def hit(name, n=1):
         probes[name] = probes.get(name, 0) + n
 
+    recent_h = []
+
     def add_holder(dm, model, origin):
         h = {"dm": dm, "model": model, "queried": False, "mut": None, "origin": origin}
         if len(holders) < 4:
             holders.append(h)
         else:
             holders[len(log) % 4] = h
+        recent_h.append(h)
         return h
+
+    def pick_holder(idx):
+        """non-negative: modulo the live tables; negative: the n-th most recently created live table"""
+        if idx < 0:
+            live = [r for r in recent_h if any(r is x for x in holders)]
+            if len(live) >= -idx:
+                return live[idx]
+            return holders[0]
+        return holders[idx % len(holders)]
 
     viewers = []      # dicts: v (GIRBlockViewer), rows ([dict], the snapshot it was built from), s, e (open range), src (holder)
 
@@ -516,7 +545,7 @@ def execute(trace):
             elif not holders:
                 continue
             elif kind in ("copy_of", "from_df", "clone", "slice", "from_query", "from_qval"):
-                src = holders[op["h"] % len(holders)]
+                src = pick_holder(op["h"])
                 m = src["model"]
                 if kind == "copy_of":
                     dm = sut(lambda: _DM(src["dm"]))
@@ -568,7 +597,7 @@ def execute(trace):
                 log.append([kind, len(holders)])
             # ------------------------------------------------------------ mutations
             elif kind in MUTATIONS:
-                h = holders[op["h"] % len(holders)]
+                h = pick_holder(op["h"])
                 m = h["model"]
                 n = len(m.rows)
                 applied = False
@@ -701,7 +730,7 @@ def execute(trace):
                 hit("viewer_built")
                 log.append([kind, 0])
             elif kind == "viewer_new":
-                h = holders[op["h"] % len(holders)]
+                h = pick_holder(op["h"])
                 rows = [dict(r) for _, r in h["model"].rows]
                 if not gir_wellformed(rows):
                     continue
@@ -757,7 +786,7 @@ def execute(trace):
                         violation = {"step": step, "cls": f"viewer:{op['kind']}", "detail": {"op": op, "expected": exp, "observed": obs,
                                                                                              "range": [s_, e_], "rows": rows}}
             elif kind == "q":
-                h = holders[op["h"] % len(holders)]
+                h = pick_holder(op["h"])
                 exp, obs, skipped = run_query(h, op, sut, hit, states, trans)
                 if skipped:
                     continue
@@ -860,6 +889,9 @@ def viewer_query(w, op, sut, ids):
         except IndexError:
             obs = "IndexError"
         return exp, obs
+    if kind == "getslice":
+        sl = slice(*op["sl"])
+        return [_mrow(r) for r in vis[sl]], [_vrow(x) for x in sut(lambda: v[sl])]
     if kind in ("contains_stmt_id", "stmt_by_id", "block_stmt_ids"):
         sid = ids[op["sid"] % len(ids)] if ids and op["sid"] % 4 else op["sid"]
         fi = first_index.get(sid)
